@@ -14,7 +14,13 @@ NKEYS = 5
 
 
 def keyname(i):
-    return ('%02x' % (0xa0 + i) + 'k%037d' % i).encode('ascii')
+    """40 hex digits like a real task hash; the endings cover what naive suffix/prefix handling gets wrong (`rstrip('.lock')` eats
+    trailing c's, a key whose directory part looks like a special directory name, repeated characters)"""
+    import hashlib
+    h = hashlib.sha1(b'jugverif-key-%d' % i).hexdigest()
+    tails = ['cc', '0c', 'a1', 'ff', 'c0', '9e', '7b', 'd2']
+    heads = ['ab', 'cd', 'ec', 'f0', '1c', '2b', '3a', '49']
+    return (heads[i % 8] + h[2:38] + tails[i % 8]).encode('ascii')
 
 
 # ------------------------------------------------------------------------------------------------------ value universe
